@@ -1,5 +1,6 @@
 """C11 - @string references resolve exactly: bare matching identifiers only."""
 import collections
+import contextlib
 import itertools
 
 from .. import common as C
@@ -131,6 +132,11 @@ def gen(tier, rng):
             t = "\n".join(combo)
             yield {"op": "parse", "t": t}
             yield {"op": "resolve", "t": t, "inplace": (len(t) + n) % 2 == 0}
+    # a list obtained from default_parse_stack() belongs to the caller: after they changed it, a default parse is the same
+    for how in ("pop", "poplast", "clear", "reverse"):
+        sel = STRING_DEFS[:4] + ["@a{e1, f = %s}" % v for v in ("abc", "ABC", "{abc}", '"abc"', "xy", "undef")]
+        for combo in itertools.product(sel, repeat=2):
+            yield {"op": "parse", "t": "\n".join(combo), "touch": how}
     if not quick:
         for _ in range(150000):
             t = "\n".join(rng.choice(items) for _ in range(4))
@@ -162,6 +168,33 @@ def gen(tier, rng):
         yield {"op": "blocks", "inplace": rng.random() < 0.5, "blocks": bl}
 
 
+@contextlib.contextmanager
+def _touched(how):
+    """a caller obtained default_parse_stack() earlier and changed THEIR list (pop / clear / reverse): parse_string without
+    a stack argument still applies the complete default stack, resolve before enclosing removal. Whatever was changed is
+    put back afterwards (on the unchanged code the lists are the caller's own and nothing is shared)."""
+    saved = []
+    try:
+        if how:
+            from bibtexparser.middlewares.parsestack import default_parse_stack
+            for kw in ({}, {"allow_inplace_modification": True}, {"allow_inplace_modification": False}):
+                st = default_parse_stack(**kw)
+                if isinstance(st, list):
+                    saved.append((st, list(st)))
+                    if how == "pop" and st:
+                        st.pop(0)
+                    elif how == "poplast" and st:
+                        st.pop()
+                    elif how == "clear":
+                        del st[:]
+                    elif how == "reverse":
+                        st.reverse()
+        yield
+    finally:
+        for st, was in reversed(saved):
+            st[:] = was
+
+
 def request(case):
     txt = W.all_text(case)
     if not lean_representable(txt):
@@ -182,7 +215,8 @@ def impl(case):
     from bibtexparser.middlewares import ResolveStringReferencesMiddleware
     op = case["op"]
     if op == "parse":
-        return enc([Sym("ok"), _enc_lib(bibtexparser.parse_string(case["t"]))])
+        with _touched(case.get("touch")):
+            return enc([Sym("ok"), _enc_lib(bibtexparser.parse_string(case["t"]))])
     mw = ResolveStringReferencesMiddleware(allow_inplace_modification=case["inplace"])
     if op == "resolve":
         lib = bibtexparser.parse_string(case["t"], parse_stack=[])
@@ -260,7 +294,8 @@ def oracle(case):
     op = case["op"]
     if op == "parse":
         raw = bibtexparser.parse_string(case["t"], parse_stack=[])
-        out = bibtexparser.parse_string(case["t"])
+        with _touched(case.get("touch")):
+            out = bibtexparser.parse_string(case["t"])
         # which @string is "the first with that key" is read off the SOURCE (exact, case-sensitive keys), not off what
         # Library.add made of the blocks: the live @string blocks are exactly the first definitions, in document order
         import re as _re
